@@ -65,7 +65,13 @@ def main(path):
                 again = any(m["code"] == r.get("code") for m in mm) or (mm and r.get("code") is None)
         elif how == "model" and r["module"].startswith("AP_"):
             import subprocess
-            p = subprocess.run(["apalache-mc", "check", "--length=0", f"--inv={r['invariant']}", f"--out-dir={work}/ap", os.path.join(ck.SPEC, r["module"] + ".tla")],
+            for m in ("Word64Core", "AP_Word64", "AP_Word64At", "AP_N"):
+                shutil.copy(os.path.join(ck.SPEC, m + ".tla"), work)
+            if r.get("N") is not None:
+                import re
+                src = open(os.path.join(work, "AP_N.tla")).read()
+                open(os.path.join(work, "AP_N.tla"), "w").write(re.sub(r"^N == \d+$", f"N == {r['N']}", src, flags=re.M))
+            p = subprocess.run(["apalache-mc", "check", "--length=0", f"--inv={r['invariant']}", f"--out-dir={work}/ap", r["module"] + ".tla"],
                                cwd=work, stdout=subprocess.PIPE, stderr=subprocess.STDOUT, text=True, timeout=5000)
             again = "The outcome is: NoError" not in p.stdout
         elif how == "model":
